@@ -236,7 +236,10 @@ fn run_class(class: &str, big: bool) -> ClassResult {
 // -------------------------------------------------------- directed programs
 
 /// (id, gate, items, main body, expected stdout)
-const DIRECTED: [(&str, &str, &str, &str, &str); 26] = [
+const DIRECTED: [(&str, &str, &str, &str, &str); 28] = [
+    ("dyn-trait-predeclared-name", "", "trait error { fn m(Self) -> int32; }\nstruct Q { a: int32 }\nimpl error for Q { fn m(self: Q) -> int32 { self.a } }\nfn through(d: dyn error) -> int32 { error::m(d) }", "let q = Q { a: 5 }; let _ = string_println(int32_to_string(through(q)));", "5\n"),
+    // a second package (after the marker line): the same variant name in enums of two packages, and a trait of another package used as dyn
+    ("two-packages-same-variant", "", "package Main\nimport Net\nenum Door { Open, Closed(string) }\nstruct Q { a: int32 }\nimpl Net::Show for Q { fn show(self: Q) -> int32 { self.a } }\nfn through(d: dyn Net::Show) -> int32 { Net::Show::show(d) }\n//>> FILE Net/lib.gom\npackage Net\nenum Status { Up, Closed(int32) }\ntrait Show { fn show(Self) -> int32; }\nfn code(s: Status) -> int32 { match s { Status::Up => 0, Status::Closed(n) => n } }\n//>> END", "let d = Door::Closed(\"x\"); let s = Net::Status::Closed(3); let _ = match d { Door::Open => string_println(\"o\"), Door::Closed(t) => string_println(t) }; let _ = string_println(int32_to_string(Net::code(s))); let q = Q { a: 7 }; let _ = string_println(int32_to_string(through(q)));", "x\n3\n7\n"),
     ("dyn-method-keyword", "", "trait Sh { fn range(Self) -> int32; fn len(Self) -> int32; }\nstruct Q { a: int32 }\nimpl Sh for Q { fn range(self: Q) -> int32 { self.a } fn len(self: Q) -> int32 { self.a + 1 } }\nfn through(d: dyn Sh) -> int32 { Sh::range(d) + Sh::len(d) }", "let q = Q { a: 3 }; let _ = string_println(int32_to_string(through(q)));", "7\n"),
     ("inherent-method-keyword", "", "struct Q { a: int32 }\nimpl Q { fn select(self: Q) -> int32 { self.a } fn init(self: Q) -> int32 { self.a * 2 } }", "let q = Q { a: 3 }; let _ = string_println(int32_to_string(q.select() + Q::init(q)));", "9\n"),
     ("fn-len", "", "fn len(x: int32) -> int32 { x + 100 }", "let _ = string_println(int32_to_string(len(1) + string_len(\"abc\")));", "104\n"),
@@ -266,7 +269,16 @@ const DIRECTED: [(&str, &str, &str, &str, &str); 26] = [
 ];
 
 fn judge_program(text: &str, expected_stdout: Option<&str>, expected: Option<&Expected>, key: u64, labels: Vec<String>, nt: bool, ctx: &mut Ctx) -> CaseOut {
-    match goml::compile_single(ctx, text) {
+    judge_program_files(text, None, expected_stdout, expected, key, labels, nt, ctx)
+}
+
+#[allow(clippy::too_many_arguments)]
+fn judge_program_files(text: &str, files: Option<&Value>, expected_stdout: Option<&str>, expected: Option<&Expected>, key: u64, labels: Vec<String>, nt: bool, ctx: &mut Ctx) -> CaseOut {
+    let res = match files {
+        Some(f) => goml::compile_project(ctx, &goml::files_from_json(f)),
+        None => goml::compile_single(ctx, text),
+    };
+    match res {
         CompileRes::Panic(pn) => CaseOut::fail(
             format!("C19|panic|{}", pn.signature()),
             format!("panic at {}:{}: {}\n--- goml source\n{text}", pn.file, pn.line, pn.message),
@@ -339,8 +351,32 @@ impl Check for C19 {
             "directed" => {
                 let (id, gate, items, body, want) = DIRECTED[index as usize];
                 let gated = !gate.is_empty() && ctx.gated(gate);
-                let text = format!("{items}\nfn main() {{\n{body}\n ()\n}}\n");
-                Case::new(json!({"directed": id, "gate": gate, "gated": gated, "text": text, "stdout": want}))
+                // further package files sit between `//>> FILE <path>` and `//>> END`
+                let mut main_items = String::new();
+                let mut files: Vec<(String, String)> = vec![];
+                let mut cur: Option<(String, String)> = None;
+                for l in items.lines() {
+                    if let Some(p) = l.strip_prefix("//>> FILE ") {
+                        cur = Some((p.trim().to_string(), String::new()));
+                    } else if l.starts_with("//>> END") {
+                        if let Some(f) = cur.take() {
+                            files.push(f);
+                        }
+                    } else if let Some((_, t)) = cur.as_mut() {
+                        t.push_str(l);
+                        t.push('\n');
+                    } else {
+                        main_items.push_str(l);
+                        main_items.push('\n');
+                    }
+                }
+                let text = format!("{main_items}\nfn main() {{\n{body}\n ()\n}}\n");
+                let mut v = json!({"directed": id, "gate": gate, "gated": gated, "text": text, "stdout": want});
+                if !files.is_empty() {
+                    files.push(("main.gom".to_string(), text.clone()));
+                    v["files"] = goml::files_to_json(&files);
+                }
+                Case::new(v)
             }
             _ => {
                 let mut d = Dec::new(bytes);
@@ -377,7 +413,8 @@ impl Check for C19 {
                 return CaseOut::discard(&format!("gated:{}", input["gate"].as_str().unwrap_or("")));
             }
             let labels = vec![format!("directed:{id}"), "directed".to_string()];
-            return judge_program(text, input["stdout"].as_str(), None, key, labels, true, ctx);
+            let files = if input["files"].is_object() { Some(&input["files"]) } else { None };
+            return judge_program_files(text, files, input["stdout"].as_str(), None, key, labels, true, ctx);
         }
         let labels: Vec<String> = input["labels"]
             .as_array()
